@@ -50,7 +50,21 @@ def table_store(chk: Check, repo: Repo) -> None:
                 kdef = ast.unparse(inline_locals(w.func.node, t.slice.value))
                 vdef = [n for n in ast.walk(w.func.node) if isinstance(n, ast.NamedExpr) and n.target.id == st.value.id] + [n for n in walk_local(w.func.node) if isinstance(n, ast.Assign) and len(n.targets) == 1 and isinstance(n.targets[0], ast.Name) and n.targets[0].id == st.value.id]
                 ok = kdef.startswith("parse_device_group_address(") and len(vdef) == 1 and isinstance(vdef[0].value, ast.Call) and call_name(vdef[0].value) == "DPTBase.parse_transcoder"
+        elif q == "GroupAddressDPT.set" and any(isinstance(x, ast.Call) and call_name(x) == "self._ga_dpts.pop" for x in ast.walk(st)):
+            # removing the entry of the address being (re)configured - a type without a transcoder leaves no decoder behind
+            c_ = next(x for x in ast.walk(st) if isinstance(x, ast.Call) and call_name(x) == "self._ga_dpts.pop")
+            ok = bool(c_.args) and isinstance(c_.args[0], ast.Attribute) and c_.args[0].attr == "raw" and len(c_.args) == 2
         chk.ob("last-assignment-is-the-configured-type", w.func.site(st), ok, f"{q}: `{canon(st)[:90]}`" + ("" if ok else " — not one of: empty dict in __init__/clear, `self._ga_dpts[<parsed address>.raw] = <parsed transcoder>` in set (an entry written any other way, e.g. merged so that old entries win, leaves telegrams decoded by a type that is no longer configured)"), key=f"table|{q}|{w.kind}")
+    # every (re)configuration of an address replaces what the table held for it: on each path through one iteration of
+    # set() past the address parse the entry is either stored or removed - `continue` for a type without a transcoder
+    # would keep decoding with the type the address had before
+    sf = repo.func(GD, "GroupAddressDPT.set")
+    scfg = CFG(sf.node)
+    touch = [n.id for n in scfg.nodes if n.kind == "stmt" and n.ast is not None and ((isinstance(n.ast, ast.Assign) and isinstance(n.ast.targets[0], ast.Subscript) and ast.unparse(n.ast.targets[0].value) == "self._ga_dpts") or any(call_name(c) == "self._ga_dpts.pop" for c in calls(n.ast)))]
+    parsed = [n.id for n in scfg.nodes if n.kind == "test" and n.ast is not None and "parse_transcoder" in ast.unparse(n.ast)]
+    heads = [n.id for n in scfg.nodes if n.kind == "for"]
+    ok_r = bool(touch) and bool(parsed) and bool(heads) and all(scfg.all_paths_hit(p_, touch, heads + [scfg.exit], edge_ok=scfg.normal_only, include_start=False) for p_ in parsed)
+    chk.ob("reconfigured-address-keeps-no-stale-type", sf.site(), ok_r, "set(): past the transcoder lookup every path of an iteration stores or removes the address's entry" if ok_r else "set(): an address re-assigned to a type without a transcoder keeps its previous decoder - telegrams to it still carry the old type's value", key="table|no-stale")
     g = repo.func(GD, "GroupAddressDPT.get")
     chk.unit(g)
     rets = [n for n in walk_local(g.node) if isinstance(n, ast.Return)]
